@@ -200,7 +200,8 @@ class DGPRCTBaseModel(Model):
 
         self.bus = ExtParam(model='DG', src='bus',
                             indexer=self.dev,
-                            export=False)
+                            export=False,
+                            vtype=str)
 
         self.fn = ExtParam(model='DG', src='fn',
                            indexer=self.dev,
